@@ -22,6 +22,8 @@ CONSTANTS
   ChanTO = 3
   MaxLife = 3600
   Denied <- MCNoDenied
+  Toks = {"none"}
+  ResvTO = 30
   MaxDepth = 6
 CONSTRAINT DepthBound
 ACTION_CONSTRAINT EmitEdge
